@@ -36,7 +36,8 @@ From AV Require Import Base.Prelude.
 Inductive task :=
 | TClientAuth (m : Z)                         (* ClientAuth._start of method m: 0 none, 1 password, 2 keyboard-interactive *)
 | TChangePw                                   (* _ClientPasswordAuth._change_password *)
-| TClientKbdResp                              (* _ClientKbdIntAuth._receive_challenge: answers the challenge *)
+| TClientKbdResp (cancel : Z)                 (* _ClientKbdIntAuth._receive_challenge: 0 answers, else the user cancels *)
+| TClientPkSign                               (* _ClientPublicKeyAuth._send_signed_request *)
 | TServerPw (u pw : Z)                        (* _ServerPasswordAuth._start for user u *)
 | TServerKbd (u : Z)                          (* _ServerKbdIntAuth._start: sends the challenge *)
 | TServerKbdResp (u ok : Z)                   (* _ServerKbdIntAuth._validate_response; ok = 0: the answer is right *)
@@ -69,36 +70,40 @@ Record conn := mkconn {
   app_events : Z;
   desync : bool;
   olog : list (Z * Z);
-  deleg : bool
+  deleg : bool;
+  gated : bool;
+  waiting : bool
 }.
 
-Definition set_srv (v : bool) (c : conn) : conn := mkconn v (strict c) (sid c) (kex c) (kexinit_sent c) (kex_complete c) (send_enc c) (recv_enc c) (next_recv c) (can_recv_ext c) (next_service c) (auth_in_prog c) (auth c) (req_issued c) (methods c) (auth_complete c) (auth_final c) (user c) (deferred c) (pending c) (closed c) (authed c) (unsolicited c) (app_events c) (desync c) (olog c) (deleg c).
-Definition set_strict (v : bool) (c : conn) : conn := mkconn (srv c) v (sid c) (kex c) (kexinit_sent c) (kex_complete c) (send_enc c) (recv_enc c) (next_recv c) (can_recv_ext c) (next_service c) (auth_in_prog c) (auth c) (req_issued c) (methods c) (auth_complete c) (auth_final c) (user c) (deferred c) (pending c) (closed c) (authed c) (unsolicited c) (app_events c) (desync c) (olog c) (deleg c).
-Definition set_sid (v : bool) (c : conn) : conn := mkconn (srv c) (strict c) v (kex c) (kexinit_sent c) (kex_complete c) (send_enc c) (recv_enc c) (next_recv c) (can_recv_ext c) (next_service c) (auth_in_prog c) (auth c) (req_issued c) (methods c) (auth_complete c) (auth_final c) (user c) (deferred c) (pending c) (closed c) (authed c) (unsolicited c) (app_events c) (desync c) (olog c) (deleg c).
-Definition set_kex (v : bool) (c : conn) : conn := mkconn (srv c) (strict c) (sid c) v (kexinit_sent c) (kex_complete c) (send_enc c) (recv_enc c) (next_recv c) (can_recv_ext c) (next_service c) (auth_in_prog c) (auth c) (req_issued c) (methods c) (auth_complete c) (auth_final c) (user c) (deferred c) (pending c) (closed c) (authed c) (unsolicited c) (app_events c) (desync c) (olog c) (deleg c).
-Definition set_kexinit_sent (v : bool) (c : conn) : conn := mkconn (srv c) (strict c) (sid c) (kex c) v (kex_complete c) (send_enc c) (recv_enc c) (next_recv c) (can_recv_ext c) (next_service c) (auth_in_prog c) (auth c) (req_issued c) (methods c) (auth_complete c) (auth_final c) (user c) (deferred c) (pending c) (closed c) (authed c) (unsolicited c) (app_events c) (desync c) (olog c) (deleg c).
-Definition set_kex_complete (v : bool) (c : conn) : conn := mkconn (srv c) (strict c) (sid c) (kex c) (kexinit_sent c) v (send_enc c) (recv_enc c) (next_recv c) (can_recv_ext c) (next_service c) (auth_in_prog c) (auth c) (req_issued c) (methods c) (auth_complete c) (auth_final c) (user c) (deferred c) (pending c) (closed c) (authed c) (unsolicited c) (app_events c) (desync c) (olog c) (deleg c).
-Definition set_send_enc (v : bool) (c : conn) : conn := mkconn (srv c) (strict c) (sid c) (kex c) (kexinit_sent c) (kex_complete c) v (recv_enc c) (next_recv c) (can_recv_ext c) (next_service c) (auth_in_prog c) (auth c) (req_issued c) (methods c) (auth_complete c) (auth_final c) (user c) (deferred c) (pending c) (closed c) (authed c) (unsolicited c) (app_events c) (desync c) (olog c) (deleg c).
-Definition set_recv_enc (v : bool) (c : conn) : conn := mkconn (srv c) (strict c) (sid c) (kex c) (kexinit_sent c) (kex_complete c) (send_enc c) v (next_recv c) (can_recv_ext c) (next_service c) (auth_in_prog c) (auth c) (req_issued c) (methods c) (auth_complete c) (auth_final c) (user c) (deferred c) (pending c) (closed c) (authed c) (unsolicited c) (app_events c) (desync c) (olog c) (deleg c).
-Definition set_next_recv (v : bool) (c : conn) : conn := mkconn (srv c) (strict c) (sid c) (kex c) (kexinit_sent c) (kex_complete c) (send_enc c) (recv_enc c) v (can_recv_ext c) (next_service c) (auth_in_prog c) (auth c) (req_issued c) (methods c) (auth_complete c) (auth_final c) (user c) (deferred c) (pending c) (closed c) (authed c) (unsolicited c) (app_events c) (desync c) (olog c) (deleg c).
-Definition set_can_recv_ext (v : bool) (c : conn) : conn := mkconn (srv c) (strict c) (sid c) (kex c) (kexinit_sent c) (kex_complete c) (send_enc c) (recv_enc c) (next_recv c) v (next_service c) (auth_in_prog c) (auth c) (req_issued c) (methods c) (auth_complete c) (auth_final c) (user c) (deferred c) (pending c) (closed c) (authed c) (unsolicited c) (app_events c) (desync c) (olog c) (deleg c).
-Definition set_next_service (v : bool) (c : conn) : conn := mkconn (srv c) (strict c) (sid c) (kex c) (kexinit_sent c) (kex_complete c) (send_enc c) (recv_enc c) (next_recv c) (can_recv_ext c) v (auth_in_prog c) (auth c) (req_issued c) (methods c) (auth_complete c) (auth_final c) (user c) (deferred c) (pending c) (closed c) (authed c) (unsolicited c) (app_events c) (desync c) (olog c) (deleg c).
-Definition set_auth_in_prog (v : bool) (c : conn) : conn := mkconn (srv c) (strict c) (sid c) (kex c) (kexinit_sent c) (kex_complete c) (send_enc c) (recv_enc c) (next_recv c) (can_recv_ext c) (next_service c) v (auth c) (req_issued c) (methods c) (auth_complete c) (auth_final c) (user c) (deferred c) (pending c) (closed c) (authed c) (unsolicited c) (app_events c) (desync c) (olog c) (deleg c).
-Definition set_auth (v : Z) (c : conn) : conn := mkconn (srv c) (strict c) (sid c) (kex c) (kexinit_sent c) (kex_complete c) (send_enc c) (recv_enc c) (next_recv c) (can_recv_ext c) (next_service c) (auth_in_prog c) v (req_issued c) (methods c) (auth_complete c) (auth_final c) (user c) (deferred c) (pending c) (closed c) (authed c) (unsolicited c) (app_events c) (desync c) (olog c) (deleg c).
-Definition set_req_issued (v : bool) (c : conn) : conn := mkconn (srv c) (strict c) (sid c) (kex c) (kexinit_sent c) (kex_complete c) (send_enc c) (recv_enc c) (next_recv c) (can_recv_ext c) (next_service c) (auth_in_prog c) (auth c) v (methods c) (auth_complete c) (auth_final c) (user c) (deferred c) (pending c) (closed c) (authed c) (unsolicited c) (app_events c) (desync c) (olog c) (deleg c).
-Definition set_methods (v : list Z) (c : conn) : conn := mkconn (srv c) (strict c) (sid c) (kex c) (kexinit_sent c) (kex_complete c) (send_enc c) (recv_enc c) (next_recv c) (can_recv_ext c) (next_service c) (auth_in_prog c) (auth c) (req_issued c) v (auth_complete c) (auth_final c) (user c) (deferred c) (pending c) (closed c) (authed c) (unsolicited c) (app_events c) (desync c) (olog c) (deleg c).
-Definition set_auth_complete (v : bool) (c : conn) : conn := mkconn (srv c) (strict c) (sid c) (kex c) (kexinit_sent c) (kex_complete c) (send_enc c) (recv_enc c) (next_recv c) (can_recv_ext c) (next_service c) (auth_in_prog c) (auth c) (req_issued c) (methods c) v (auth_final c) (user c) (deferred c) (pending c) (closed c) (authed c) (unsolicited c) (app_events c) (desync c) (olog c) (deleg c).
-Definition set_auth_final (v : bool) (c : conn) : conn := mkconn (srv c) (strict c) (sid c) (kex c) (kexinit_sent c) (kex_complete c) (send_enc c) (recv_enc c) (next_recv c) (can_recv_ext c) (next_service c) (auth_in_prog c) (auth c) (req_issued c) (methods c) (auth_complete c) v (user c) (deferred c) (pending c) (closed c) (authed c) (unsolicited c) (app_events c) (desync c) (olog c) (deleg c).
-Definition set_user (v : Z) (c : conn) : conn := mkconn (srv c) (strict c) (sid c) (kex c) (kexinit_sent c) (kex_complete c) (send_enc c) (recv_enc c) (next_recv c) (can_recv_ext c) (next_service c) (auth_in_prog c) (auth c) (req_issued c) (methods c) (auth_complete c) (auth_final c) v (deferred c) (pending c) (closed c) (authed c) (unsolicited c) (app_events c) (desync c) (olog c) (deleg c).
-Definition set_deferred (v : list Z) (c : conn) : conn := mkconn (srv c) (strict c) (sid c) (kex c) (kexinit_sent c) (kex_complete c) (send_enc c) (recv_enc c) (next_recv c) (can_recv_ext c) (next_service c) (auth_in_prog c) (auth c) (req_issued c) (methods c) (auth_complete c) (auth_final c) (user c) v (pending c) (closed c) (authed c) (unsolicited c) (app_events c) (desync c) (olog c) (deleg c).
-Definition set_pending (v : list task) (c : conn) : conn := mkconn (srv c) (strict c) (sid c) (kex c) (kexinit_sent c) (kex_complete c) (send_enc c) (recv_enc c) (next_recv c) (can_recv_ext c) (next_service c) (auth_in_prog c) (auth c) (req_issued c) (methods c) (auth_complete c) (auth_final c) (user c) (deferred c) v (closed c) (authed c) (unsolicited c) (app_events c) (desync c) (olog c) (deleg c).
-Definition set_closed (v : bool) (c : conn) : conn := mkconn (srv c) (strict c) (sid c) (kex c) (kexinit_sent c) (kex_complete c) (send_enc c) (recv_enc c) (next_recv c) (can_recv_ext c) (next_service c) (auth_in_prog c) (auth c) (req_issued c) (methods c) (auth_complete c) (auth_final c) (user c) (deferred c) (pending c) v (authed c) (unsolicited c) (app_events c) (desync c) (olog c) (deleg c).
-Definition set_authed (v : Z) (c : conn) : conn := mkconn (srv c) (strict c) (sid c) (kex c) (kexinit_sent c) (kex_complete c) (send_enc c) (recv_enc c) (next_recv c) (can_recv_ext c) (next_service c) (auth_in_prog c) (auth c) (req_issued c) (methods c) (auth_complete c) (auth_final c) (user c) (deferred c) (pending c) (closed c) v (unsolicited c) (app_events c) (desync c) (olog c) (deleg c).
-Definition set_unsolicited (v : bool) (c : conn) : conn := mkconn (srv c) (strict c) (sid c) (kex c) (kexinit_sent c) (kex_complete c) (send_enc c) (recv_enc c) (next_recv c) (can_recv_ext c) (next_service c) (auth_in_prog c) (auth c) (req_issued c) (methods c) (auth_complete c) (auth_final c) (user c) (deferred c) (pending c) (closed c) (authed c) v (app_events c) (desync c) (olog c) (deleg c).
-Definition set_app_events (v : Z) (c : conn) : conn := mkconn (srv c) (strict c) (sid c) (kex c) (kexinit_sent c) (kex_complete c) (send_enc c) (recv_enc c) (next_recv c) (can_recv_ext c) (next_service c) (auth_in_prog c) (auth c) (req_issued c) (methods c) (auth_complete c) (auth_final c) (user c) (deferred c) (pending c) (closed c) (authed c) (unsolicited c) v (desync c) (olog c) (deleg c).
-Definition set_desync (v : bool) (c : conn) : conn := mkconn (srv c) (strict c) (sid c) (kex c) (kexinit_sent c) (kex_complete c) (send_enc c) (recv_enc c) (next_recv c) (can_recv_ext c) (next_service c) (auth_in_prog c) (auth c) (req_issued c) (methods c) (auth_complete c) (auth_final c) (user c) (deferred c) (pending c) (closed c) (authed c) (unsolicited c) (app_events c) v (olog c) (deleg c).
-Definition set_olog (v : list (Z * Z)) (c : conn) : conn := mkconn (srv c) (strict c) (sid c) (kex c) (kexinit_sent c) (kex_complete c) (send_enc c) (recv_enc c) (next_recv c) (can_recv_ext c) (next_service c) (auth_in_prog c) (auth c) (req_issued c) (methods c) (auth_complete c) (auth_final c) (user c) (deferred c) (pending c) (closed c) (authed c) (unsolicited c) (app_events c) (desync c) v (deleg c).
-Definition set_deleg (v : bool) (c : conn) : conn := mkconn (srv c) (strict c) (sid c) (kex c) (kexinit_sent c) (kex_complete c) (send_enc c) (recv_enc c) (next_recv c) (can_recv_ext c) (next_service c) (auth_in_prog c) (auth c) (req_issued c) (methods c) (auth_complete c) (auth_final c) (user c) (deferred c) (pending c) (closed c) (authed c) (unsolicited c) (app_events c) (desync c) (olog c) v.
+Definition set_srv (v : bool) (c : conn) : conn := mkconn v (strict c) (sid c) (kex c) (kexinit_sent c) (kex_complete c) (send_enc c) (recv_enc c) (next_recv c) (can_recv_ext c) (next_service c) (auth_in_prog c) (auth c) (req_issued c) (methods c) (auth_complete c) (auth_final c) (user c) (deferred c) (pending c) (closed c) (authed c) (unsolicited c) (app_events c) (desync c) (olog c) (deleg c) (gated c) (waiting c).
+Definition set_strict (v : bool) (c : conn) : conn := mkconn (srv c) v (sid c) (kex c) (kexinit_sent c) (kex_complete c) (send_enc c) (recv_enc c) (next_recv c) (can_recv_ext c) (next_service c) (auth_in_prog c) (auth c) (req_issued c) (methods c) (auth_complete c) (auth_final c) (user c) (deferred c) (pending c) (closed c) (authed c) (unsolicited c) (app_events c) (desync c) (olog c) (deleg c) (gated c) (waiting c).
+Definition set_sid (v : bool) (c : conn) : conn := mkconn (srv c) (strict c) v (kex c) (kexinit_sent c) (kex_complete c) (send_enc c) (recv_enc c) (next_recv c) (can_recv_ext c) (next_service c) (auth_in_prog c) (auth c) (req_issued c) (methods c) (auth_complete c) (auth_final c) (user c) (deferred c) (pending c) (closed c) (authed c) (unsolicited c) (app_events c) (desync c) (olog c) (deleg c) (gated c) (waiting c).
+Definition set_kex (v : bool) (c : conn) : conn := mkconn (srv c) (strict c) (sid c) v (kexinit_sent c) (kex_complete c) (send_enc c) (recv_enc c) (next_recv c) (can_recv_ext c) (next_service c) (auth_in_prog c) (auth c) (req_issued c) (methods c) (auth_complete c) (auth_final c) (user c) (deferred c) (pending c) (closed c) (authed c) (unsolicited c) (app_events c) (desync c) (olog c) (deleg c) (gated c) (waiting c).
+Definition set_kexinit_sent (v : bool) (c : conn) : conn := mkconn (srv c) (strict c) (sid c) (kex c) v (kex_complete c) (send_enc c) (recv_enc c) (next_recv c) (can_recv_ext c) (next_service c) (auth_in_prog c) (auth c) (req_issued c) (methods c) (auth_complete c) (auth_final c) (user c) (deferred c) (pending c) (closed c) (authed c) (unsolicited c) (app_events c) (desync c) (olog c) (deleg c) (gated c) (waiting c).
+Definition set_kex_complete (v : bool) (c : conn) : conn := mkconn (srv c) (strict c) (sid c) (kex c) (kexinit_sent c) v (send_enc c) (recv_enc c) (next_recv c) (can_recv_ext c) (next_service c) (auth_in_prog c) (auth c) (req_issued c) (methods c) (auth_complete c) (auth_final c) (user c) (deferred c) (pending c) (closed c) (authed c) (unsolicited c) (app_events c) (desync c) (olog c) (deleg c) (gated c) (waiting c).
+Definition set_send_enc (v : bool) (c : conn) : conn := mkconn (srv c) (strict c) (sid c) (kex c) (kexinit_sent c) (kex_complete c) v (recv_enc c) (next_recv c) (can_recv_ext c) (next_service c) (auth_in_prog c) (auth c) (req_issued c) (methods c) (auth_complete c) (auth_final c) (user c) (deferred c) (pending c) (closed c) (authed c) (unsolicited c) (app_events c) (desync c) (olog c) (deleg c) (gated c) (waiting c).
+Definition set_recv_enc (v : bool) (c : conn) : conn := mkconn (srv c) (strict c) (sid c) (kex c) (kexinit_sent c) (kex_complete c) (send_enc c) v (next_recv c) (can_recv_ext c) (next_service c) (auth_in_prog c) (auth c) (req_issued c) (methods c) (auth_complete c) (auth_final c) (user c) (deferred c) (pending c) (closed c) (authed c) (unsolicited c) (app_events c) (desync c) (olog c) (deleg c) (gated c) (waiting c).
+Definition set_next_recv (v : bool) (c : conn) : conn := mkconn (srv c) (strict c) (sid c) (kex c) (kexinit_sent c) (kex_complete c) (send_enc c) (recv_enc c) v (can_recv_ext c) (next_service c) (auth_in_prog c) (auth c) (req_issued c) (methods c) (auth_complete c) (auth_final c) (user c) (deferred c) (pending c) (closed c) (authed c) (unsolicited c) (app_events c) (desync c) (olog c) (deleg c) (gated c) (waiting c).
+Definition set_can_recv_ext (v : bool) (c : conn) : conn := mkconn (srv c) (strict c) (sid c) (kex c) (kexinit_sent c) (kex_complete c) (send_enc c) (recv_enc c) (next_recv c) v (next_service c) (auth_in_prog c) (auth c) (req_issued c) (methods c) (auth_complete c) (auth_final c) (user c) (deferred c) (pending c) (closed c) (authed c) (unsolicited c) (app_events c) (desync c) (olog c) (deleg c) (gated c) (waiting c).
+Definition set_next_service (v : bool) (c : conn) : conn := mkconn (srv c) (strict c) (sid c) (kex c) (kexinit_sent c) (kex_complete c) (send_enc c) (recv_enc c) (next_recv c) (can_recv_ext c) v (auth_in_prog c) (auth c) (req_issued c) (methods c) (auth_complete c) (auth_final c) (user c) (deferred c) (pending c) (closed c) (authed c) (unsolicited c) (app_events c) (desync c) (olog c) (deleg c) (gated c) (waiting c).
+Definition set_auth_in_prog (v : bool) (c : conn) : conn := mkconn (srv c) (strict c) (sid c) (kex c) (kexinit_sent c) (kex_complete c) (send_enc c) (recv_enc c) (next_recv c) (can_recv_ext c) (next_service c) v (auth c) (req_issued c) (methods c) (auth_complete c) (auth_final c) (user c) (deferred c) (pending c) (closed c) (authed c) (unsolicited c) (app_events c) (desync c) (olog c) (deleg c) (gated c) (waiting c).
+Definition set_auth (v : Z) (c : conn) : conn := mkconn (srv c) (strict c) (sid c) (kex c) (kexinit_sent c) (kex_complete c) (send_enc c) (recv_enc c) (next_recv c) (can_recv_ext c) (next_service c) (auth_in_prog c) v (req_issued c) (methods c) (auth_complete c) (auth_final c) (user c) (deferred c) (pending c) (closed c) (authed c) (unsolicited c) (app_events c) (desync c) (olog c) (deleg c) (gated c) (waiting c).
+Definition set_req_issued (v : bool) (c : conn) : conn := mkconn (srv c) (strict c) (sid c) (kex c) (kexinit_sent c) (kex_complete c) (send_enc c) (recv_enc c) (next_recv c) (can_recv_ext c) (next_service c) (auth_in_prog c) (auth c) v (methods c) (auth_complete c) (auth_final c) (user c) (deferred c) (pending c) (closed c) (authed c) (unsolicited c) (app_events c) (desync c) (olog c) (deleg c) (gated c) (waiting c).
+Definition set_methods (v : list Z) (c : conn) : conn := mkconn (srv c) (strict c) (sid c) (kex c) (kexinit_sent c) (kex_complete c) (send_enc c) (recv_enc c) (next_recv c) (can_recv_ext c) (next_service c) (auth_in_prog c) (auth c) (req_issued c) v (auth_complete c) (auth_final c) (user c) (deferred c) (pending c) (closed c) (authed c) (unsolicited c) (app_events c) (desync c) (olog c) (deleg c) (gated c) (waiting c).
+Definition set_auth_complete (v : bool) (c : conn) : conn := mkconn (srv c) (strict c) (sid c) (kex c) (kexinit_sent c) (kex_complete c) (send_enc c) (recv_enc c) (next_recv c) (can_recv_ext c) (next_service c) (auth_in_prog c) (auth c) (req_issued c) (methods c) v (auth_final c) (user c) (deferred c) (pending c) (closed c) (authed c) (unsolicited c) (app_events c) (desync c) (olog c) (deleg c) (gated c) (waiting c).
+Definition set_auth_final (v : bool) (c : conn) : conn := mkconn (srv c) (strict c) (sid c) (kex c) (kexinit_sent c) (kex_complete c) (send_enc c) (recv_enc c) (next_recv c) (can_recv_ext c) (next_service c) (auth_in_prog c) (auth c) (req_issued c) (methods c) (auth_complete c) v (user c) (deferred c) (pending c) (closed c) (authed c) (unsolicited c) (app_events c) (desync c) (olog c) (deleg c) (gated c) (waiting c).
+Definition set_user (v : Z) (c : conn) : conn := mkconn (srv c) (strict c) (sid c) (kex c) (kexinit_sent c) (kex_complete c) (send_enc c) (recv_enc c) (next_recv c) (can_recv_ext c) (next_service c) (auth_in_prog c) (auth c) (req_issued c) (methods c) (auth_complete c) (auth_final c) v (deferred c) (pending c) (closed c) (authed c) (unsolicited c) (app_events c) (desync c) (olog c) (deleg c) (gated c) (waiting c).
+Definition set_deferred (v : list Z) (c : conn) : conn := mkconn (srv c) (strict c) (sid c) (kex c) (kexinit_sent c) (kex_complete c) (send_enc c) (recv_enc c) (next_recv c) (can_recv_ext c) (next_service c) (auth_in_prog c) (auth c) (req_issued c) (methods c) (auth_complete c) (auth_final c) (user c) v (pending c) (closed c) (authed c) (unsolicited c) (app_events c) (desync c) (olog c) (deleg c) (gated c) (waiting c).
+Definition set_pending (v : list task) (c : conn) : conn := mkconn (srv c) (strict c) (sid c) (kex c) (kexinit_sent c) (kex_complete c) (send_enc c) (recv_enc c) (next_recv c) (can_recv_ext c) (next_service c) (auth_in_prog c) (auth c) (req_issued c) (methods c) (auth_complete c) (auth_final c) (user c) (deferred c) v (closed c) (authed c) (unsolicited c) (app_events c) (desync c) (olog c) (deleg c) (gated c) (waiting c).
+Definition set_closed (v : bool) (c : conn) : conn := mkconn (srv c) (strict c) (sid c) (kex c) (kexinit_sent c) (kex_complete c) (send_enc c) (recv_enc c) (next_recv c) (can_recv_ext c) (next_service c) (auth_in_prog c) (auth c) (req_issued c) (methods c) (auth_complete c) (auth_final c) (user c) (deferred c) (pending c) v (authed c) (unsolicited c) (app_events c) (desync c) (olog c) (deleg c) (gated c) (waiting c).
+Definition set_authed (v : Z) (c : conn) : conn := mkconn (srv c) (strict c) (sid c) (kex c) (kexinit_sent c) (kex_complete c) (send_enc c) (recv_enc c) (next_recv c) (can_recv_ext c) (next_service c) (auth_in_prog c) (auth c) (req_issued c) (methods c) (auth_complete c) (auth_final c) (user c) (deferred c) (pending c) (closed c) v (unsolicited c) (app_events c) (desync c) (olog c) (deleg c) (gated c) (waiting c).
+Definition set_unsolicited (v : bool) (c : conn) : conn := mkconn (srv c) (strict c) (sid c) (kex c) (kexinit_sent c) (kex_complete c) (send_enc c) (recv_enc c) (next_recv c) (can_recv_ext c) (next_service c) (auth_in_prog c) (auth c) (req_issued c) (methods c) (auth_complete c) (auth_final c) (user c) (deferred c) (pending c) (closed c) (authed c) v (app_events c) (desync c) (olog c) (deleg c) (gated c) (waiting c).
+Definition set_app_events (v : Z) (c : conn) : conn := mkconn (srv c) (strict c) (sid c) (kex c) (kexinit_sent c) (kex_complete c) (send_enc c) (recv_enc c) (next_recv c) (can_recv_ext c) (next_service c) (auth_in_prog c) (auth c) (req_issued c) (methods c) (auth_complete c) (auth_final c) (user c) (deferred c) (pending c) (closed c) (authed c) (unsolicited c) v (desync c) (olog c) (deleg c) (gated c) (waiting c).
+Definition set_desync (v : bool) (c : conn) : conn := mkconn (srv c) (strict c) (sid c) (kex c) (kexinit_sent c) (kex_complete c) (send_enc c) (recv_enc c) (next_recv c) (can_recv_ext c) (next_service c) (auth_in_prog c) (auth c) (req_issued c) (methods c) (auth_complete c) (auth_final c) (user c) (deferred c) (pending c) (closed c) (authed c) (unsolicited c) (app_events c) v (olog c) (deleg c) (gated c) (waiting c).
+Definition set_olog (v : list (Z * Z)) (c : conn) : conn := mkconn (srv c) (strict c) (sid c) (kex c) (kexinit_sent c) (kex_complete c) (send_enc c) (recv_enc c) (next_recv c) (can_recv_ext c) (next_service c) (auth_in_prog c) (auth c) (req_issued c) (methods c) (auth_complete c) (auth_final c) (user c) (deferred c) (pending c) (closed c) (authed c) (unsolicited c) (app_events c) (desync c) v (deleg c) (gated c) (waiting c).
+Definition set_deleg (v : bool) (c : conn) : conn := mkconn (srv c) (strict c) (sid c) (kex c) (kexinit_sent c) (kex_complete c) (send_enc c) (recv_enc c) (next_recv c) (can_recv_ext c) (next_service c) (auth_in_prog c) (auth c) (req_issued c) (methods c) (auth_complete c) (auth_final c) (user c) (deferred c) (pending c) (closed c) (authed c) (unsolicited c) (app_events c) (desync c) (olog c) v (gated c) (waiting c).
+Definition set_gated (v : bool) (c : conn) : conn := mkconn (srv c) (strict c) (sid c) (kex c) (kexinit_sent c) (kex_complete c) (send_enc c) (recv_enc c) (next_recv c) (can_recv_ext c) (next_service c) (auth_in_prog c) (auth c) (req_issued c) (methods c) (auth_complete c) (auth_final c) (user c) (deferred c) (pending c) (closed c) (authed c) (unsolicited c) (app_events c) (desync c) (olog c) (deleg c) v (waiting c).
+Definition set_waiting (v : bool) (c : conn) : conn := mkconn (srv c) (strict c) (sid c) (kex c) (kexinit_sent c) (kex_complete c) (send_enc c) (recv_enc c) (next_recv c) (can_recv_ext c) (next_service c) (auth_in_prog c) (auth c) (req_issued c) (methods c) (auth_complete c) (auth_final c) (user c) (deferred c) (pending c) (closed c) (authed c) (unsolicited c) (app_events c) (desync c) (olog c) (deleg c) (gated c) v.
 
 (* counters and ghost history kept outside [conn] so that packet processing cannot touch them *)
 Record st := mkst {
@@ -110,10 +115,12 @@ Record st := mkst {
   clear_acc : list Z        (* ghost: types of the packets accepted while receiving in clear, oldest first *)
 }.
 
-Definition init_conn (server : bool) : conn :=
+(* gated: the client application's credential callbacks suspend until the harness releases them (EvRelease) *)
+Definition init_conn (server gated_ : bool) : conn :=
   mkconn server false false false false false false false false false false false 0 false [0] false false 0
-         [] [] false 0 false 0 false [] false.
-Definition init (server : bool) : st := mkst (init_conn server) 0 0 (-1) (-1) [].
+         [] [] false 0 false 0 false [] false gated_ false.
+Definition init_gated (server gated_ : bool) : st := mkst (init_conn server gated_) 0 0 (-1) (-1) [].
+Definition init (server : bool) : st := init_gated server false.
 
 Definition M32 : Z := 4294967296.
 
@@ -202,10 +209,13 @@ Definition on_kexmsg (c : conn) (seq t cls : Z) : conn :=
 
 (* try_next_auth (client) *)
 Definition not_client_task (k : task) : bool :=
-  match k with TClientAuth _ => false | TChangePw => false | TClientKbdResp => false | _ => true end.
+  match k with TClientAuth _ => false | TChangePw => false | TClientKbdResp _ => false | TClientPkSign => false
+             | _ => true end.
 
 Definition try_next_auth (c : conn) (next_method : bool) : conn :=
-  let c1 := set_req_issued false (set_auth 0 (set_pending (filter not_client_task (pending c)) c)) in
+  (* the request-outstanding flag is cleared on EVERY path, also when a method is skipped (next_method) after it
+     had sent its request: keyboard-interactive prompt cancelled, password change not supported *)
+  let c1 := set_waiting false (set_req_issued false (set_auth 0 (set_pending (filter not_client_task (pending c)) c))) in
   let ms := if next_method then tl (methods c1) else methods c1 in
   let c2 := set_methods ms c1 in
   match ms with
@@ -266,7 +276,8 @@ Definition send_userauth_success (c : conn) : conn :=
 (* USERAUTH_FAILURE (client).  cls = the offered methods the client is configured to use, in its order of
    preference: 0 none of them, 1 [password], 2 [keyboard-interactive], 3 [keyboard-interactive; password] *)
 Definition failure_methods (cls : Z) : list Z :=
-  if cls =? 1 then [1] else if cls =? 2 then [2] else if cls =? 3 then [2; 1] else [].
+  if cls =? 1 then [1] else if cls =? 2 then [2] else if cls =? 3 then [2; 1]
+  else if cls =? 4 then [2; 1; 3] else if cls =? 5 then [3] else [].      (* 3 = publickey *)
 
 Definition on_userauth_failure (c : conn) (cls : Z) : conn :=
   let c1 := set_methods (failure_methods cls) c in
@@ -277,7 +288,8 @@ Definition on_userauth_success_g (fixed : bool) (c : conn) : conn :=
   if negb (srv c) && negb (auth c =? 0) && (negb fixed || req_issued c) then
     let c1 := set_unsolicited (unsolicited c || negb (req_issued c)) c in
     send_deferred (set_authed 1 (set_can_recv_ext false (set_auth_complete true (set_auth_in_prog false
-                  (set_req_issued false (set_auth 0 (set_pending (filter not_client_task (pending c1)) c1)))))))
+                  (set_waiting false (set_req_issued false (set_auth 0
+                  (set_pending (filter not_client_task (pending c1)) c1))))))))
   else fatal c.
 
 (* the client hands the banner to the application (auth_banner_received) *)
@@ -285,14 +297,19 @@ Definition on_banner (c : conn) : conn := if srv c then fatal c else set_app_eve
 
 (* method specific messages 60..79, routed to the auth object.
    client objects (auth = method + 1): 1 'none' (no handlers), 2 password (60 = PASSWD_CHANGEREQ),
-   3 keyboard-interactive (60 = INFO_REQUEST);
+   3 keyboard-interactive (60 = INFO_REQUEST; cls 0 = the application answers, else it cancels the prompt),
+   4 publickey (60 = PK_OK);
    server objects: 3 password (no handlers), 4 keyboard-interactive (61 = INFO_RESPONSE; cls 0 = the right answer),
    5 publickey (no handlers).  Auth.create_task cancels the object's previous task. *)
 Definition on_authmsg (c : conn) (seq t cls : Z) : conn :=
   if negb (srv c) && (auth c =? 2) && (t =? 60)
   then set_pending (filter not_client_task (pending c) ++ [TChangePw]) c
   else if negb (srv c) && (auth c =? 3) && (t =? 60)
-  then set_pending (filter not_client_task (pending c) ++ [TClientKbdResp]) c
+  then set_pending (filter not_client_task (pending c) ++ [TClientKbdResp (if cls =? 0 then 0 else 1)])
+                   (set_waiting false c)
+  else if negb (srv c) && (auth c =? 4) && (t =? 60)       (* PK_OK: cls 2 = names the key of our query *)
+  then (if cls =? 2 then set_pending (filter not_client_task (pending c) ++ [TClientPkSign]) (set_waiting false c)
+        else fatal c)
   else if srv c && (auth c =? 4) && (t =? 61)
   then set_pending (filter not_server_task (pending c) ++ [TServerKbdResp (user c) cls]) c
   else unimpl c seq.
@@ -354,9 +371,14 @@ Definition recv_g (fixed fixk : bool) (s : st) (t cls : Z) : st :=
 (* ---- tasks ------------------------------------------------------------------------------------------------ *)
 Definition run_task (c : conn) (k : task) : conn :=
   match k with
-  | TClientAuth m => set_req_issued true (send_packet c 50 0)     (* send_userauth_request hands the request to send_packet *)
+  | TClientAuth m =>
+      (* the start task asks the application for the credential; a gated application suspends it there *)
+      if gated c && negb (m =? 0) then set_waiting true c      (* 'none' asks the application nothing *)
+      else set_req_issued true (send_packet c 50 0)     (* send_userauth_request hands the request to send_packet *)
   | TChangePw => try_next_auth (set_app_events (app_events c + 1) c) true    (* password_change_requested -> NotImplemented *)
-  | TClientKbdResp => send_packet c 61 0                   (* kbdint_challenge_received answers; INFO_RESPONSE *)
+  | TClientKbdResp cancel =>                                 (* kbdint_challenge_received *)
+      if cancel =? 0 then send_packet c 61 0 else try_next_auth c true
+  | TClientPkSign => set_req_issued true (send_packet c 50 0)
   | TServerPw u pw =>
       if pw_valid u pw then send_userauth_success c else send_userauth_failure c
   | TServerKbd u => send_packet c 60 0                      (* get_kbdint_challenge: INFO_REQUEST *)
@@ -381,7 +403,9 @@ Definition TASK_FUEL : nat := 16.
 Inductive event :=
 | EvVersion                      (* the peer's identification string: _recv_version sends KEXINIT *)
 | EvRecv (t cls : Z)             (* one packet of type t *)
-| EvSettle.                      (* the event loop runs every ready task *)
+| EvSettle                       (* the event loop runs every ready task *)
+| EvRelease (v : Z).             (* a gated application answers the suspended credential callback: 0 = nothing to
+                                    offer (the method is skipped), else a credential (the request goes out) *)
 
 (* one event *)
 Definition step_g (fixed fixk : bool) (s : st) (e : event) : st :=
@@ -390,6 +414,10 @@ Definition step_g (fixed fixk : bool) (s : st) (e : event) : st :=
       if closed (cn s) then s else with_conn s (set_kexinit_sent true (send_kexinit (cn s)))
   | EvRecv t cls => recv_g fixed fixk s t cls
   | EvSettle => with_conn s (run_tasks TASK_FUEL (cn s))
+  | EvRelease v =>
+      if closed (cn s) || negb (waiting (cn s)) || (auth (cn s) =? 0) then s     (* only an auth object's start task waits *)
+      else if v =? 0 then with_conn s (try_next_auth (set_waiting false (cn s)) true)
+      else with_conn s (set_req_issued true (send_packet (set_waiting false (cn s)) 50 0))
   end.
 
 (* forget what the previous step logged *)
@@ -424,7 +452,10 @@ Definition verdict_eqb (a b : verdict) : bool :=
    a second session with several authentication methods: M0 keyboard-interactive attempt running;
    M1 server: that attempt failed / client: answer sent; M2 server: publickey attempt failed / client:
    keyboard-interactive failed, password request outstanding; M3 server: password attempt failed / client:
-   authenticated through keyboard-interactive;
+   authenticated through keyboard-interactive; client only, from two sessions whose credential callbacks suspend:
+   13 N0 'none' refused / 14 N1 keyboard-interactive prompt cancelled after its request / 15 N2 password change not
+   supported after its request / 16 N3 keyboard-interactive skipped by its callback / 17 N4 password callback had
+   nothing to offer / 18 N5 publickey query refused - each time with the next method's callback still pending;
    variants 0..3 = well-formed, empty body, last byte cut off, one trailing byte.
    Everything below is parametric in rowf so that a scratch run can check a live table that differs from
    the committed one. *)
@@ -441,7 +472,8 @@ Definition lookup (rowf : rowfun) (server : bool) (phase : Z) (strict_ : bool) (
 
 Definition zrange (n : nat) : list Z := map Z.of_nat (seq 0 n).
 
-Definition NPHASES : nat := 13.
+(* a server has 13 phases; a client six more (13..18): the windows between two authentication methods *)
+Definition nphases (server : bool) : nat := if server then 13%nat else 19%nat.
 Definition NVARIANTS : nat := 4.
 Definition NTYPES : nat := 256.
 
@@ -449,8 +481,9 @@ Definition row_of (rowf : rowfun) (server : bool) (phase : Z) (strict_ : bool) (
   map verdict_of_ascii (list_ascii_of_string (rowf server phase strict_ variant)).
 
 (* every (server, phase, strict, variant) of the table *)
-Definition all_cells : list (bool * Z * bool * Z) :=
-  list_prod (list_prod (list_prod [false; true] (zrange NPHASES)) [false; true]) (zrange NVARIANTS).
+Definition cells_of (server : bool) : list (bool * Z * bool * Z) :=
+  list_prod (list_prod (list_prod [server] (zrange (nphases server))) [false; true]) (zrange NVARIANTS).
+Definition all_cells : list (bool * Z * bool * Z) := cells_of false ++ cells_of true.
 
 (* p t w v for every position of a row: w = verdict of the well-formed variant, v = verdict of this variant *)
 Fixpoint row_all (p : Z -> verdict -> verdict -> bool) (t : Z) (lw l : list verdict) : bool :=
@@ -494,7 +527,7 @@ Definition p_prekex (sv : bool) (ph : Z) (sk : bool) (va t : Z) (w v : verdict) 
 
 (* phases in which authentication has not completed / has completed *)
 Definition preauth_phase (sv : bool) (ph : Z) : bool :=
-  (ph <=? 4) || ((9 <=? ph) && (ph <=? 11)) || ((ph =? 12) && sv).
+  (ph <=? 4) || ((9 <=? ph) && (ph <=? 11)) || ((ph =? 12) && sv) || (negb sv && (13 <=? ph)).
 Definition postauth_phase (sv : bool) (ph : Z) : bool :=
   ((5 <=? ph) && (ph <=? 8)) || ((ph =? 12) && negb sv).
 (* phases in which no authentication attempt is in progress on the endpoint: a server everywhere except while its
@@ -502,6 +535,15 @@ Definition postauth_phase (sv : bool) (ph : Z) : bool :=
    (A0, M1, M2, M3); a client before its first request and after authentication completed *)
 Definition no_attempt (sv : bool) (ph : Z) : bool :=
   if sv then negb (ph =? 9) else (ph <=? 3) || postauth_phase false ph.
+
+(* client only: the windows between two authentication methods - the previous method has ended (refused by
+   USERAUTH_FAILURE, or skipped by the client itself: prompt cancelled, nothing to offer, password change not
+   supported) and the next method's request has not been sent because its credential callback is still pending *)
+Definition between_phase (sv : bool) (ph : Z) : bool := negb sv && (13 <=? ph) && (ph <=? 18).
+
+(* in those windows no request is outstanding: USERAUTH_SUCCESS ends the connection *)
+Definition p_between (sv : bool) (ph : Z) (sk : bool) (va t : Z) (w v : verdict) : bool :=
+  if between_phase sv ph && (t =? 52) then verdict_eqb v VF else true.
 
 Definition p_preauth (sv : bool) (ph : Z) (sk : bool) (va t : Z) (w v : verdict) : bool :=
   if preauth_phase sv ph && verdict_eqb v VH then t <=? 79 else true.
